@@ -41,9 +41,45 @@ def build(comments):
     svc = f.service("Docs", host="doc.example.com")
     svc.rpc("GetThing", req.fqn, thing.fqn, http=("get", "/v1/{name=things/*}"), sigs=["name"])
     for tgt, path in TARGETS:
-        if comments.get(tgt) is not None:
-            f.comment(path, comments[tgt])
+        c = comments.get(tgt)
+        if c is None:
+            continue
+        if isinstance(c, str):
+            f.comment(path, c)
+        else:    # {"leading": str, "trailing": str, "detached": [str...]} — any subset, as protoc fills a Location
+            loc = f.proto.source_code_info.location.add()
+            loc.path.extend(path)
+            loc.leading_comments = c.get("leading", "")
+            loc.trailing_comments = c.get("trailing", "")
+            loc.leading_detached_comments.extend(c.get("detached", []))
     return apigen.request([f], parameter="transport=grpc+rest")
+
+
+def expected_text(c):
+    """The comment that documents an element (the property's 'comment selection', read independently of /repo): the leading
+    comment, else the trailing one, else the detached ones (blank-line separated)."""
+    if isinstance(c, str):
+        return c
+    if c.get("leading"):
+        return c["leading"]
+    if c.get("trailing"):
+        return c["trailing"]
+    return "\n\n".join(c.get("detached", []))
+
+
+# where the comment of every element sits in the source: name -> {target: comment spec}
+def placements():
+    def lead(t):
+        return " " + BENIGN[t].replace("\n", "\n ") + "\n"          # as protoc hands them over: one space after the slashes, final newline
+    out = {"detached-only": {}, "trailing-only": {}, "leading+trailing": {}, "leading+detached": {}, "two-detached": {}, "trailing+detached": {}}
+    for t, _ in TARGETS:
+        out["detached-only"][t] = {"detached": [f" Detached note on the {t.replace('_', ' ')}: " + BENIGN[t].split("\n")[0] + "\n"]}
+        out["trailing-only"][t] = {"trailing": f" Trailing note on the {t.replace('_', ' ')}: " + BENIGN[t].split("\n")[0] + "\n"}
+        out["leading+trailing"][t] = {"leading": lead(t), "trailing": " an aside that is not the documentation\n"}
+        out["leading+detached"][t] = {"leading": lead(t), "detached": [" a licence header far above\n"]}
+        out["two-detached"][t] = {"detached": [f" First detached paragraph about the {t.replace('_', ' ')}.\n", " Second detached paragraph, kept after a blank line.\n"]}
+        out["trailing+detached"][t] = {"trailing": f" Trailing words for the {t.replace('_', ' ')} win over detached ones.\n", "detached": [" section banner\n"]}
+    return out
 
 
 def parse_failures(files):
@@ -101,7 +137,7 @@ def intact(comments, files):
     for tgt, text in comments.items():
         if text is None:
             continue
-        want = text.strip().split()
+        want = expected_text(text).strip().split()
         alts = [want]
         if want and want[-1].endswith('"'):
             # rst's quote guard: when its result ends in a double quote (one-line results, nl=False) it gets a period
@@ -119,6 +155,7 @@ def intact(comments, files):
 
 def hazard_signature(target, text):
     """The class of a comment that is known (DESIGN section 9 nos. 7, 8 and the non-raw variant) to break a docstring."""
+    text = expected_text(text)
     if '"""' in text:
         return "docstring.triple_quote_in_comment"
     if "\\" in text and target == "service":
